@@ -3,6 +3,7 @@ import Proofs.Lemmas.Rewrite
 import Proofs.Lemmas.LowerStruct
 import Proofs.Lemmas.Dco
 import Proofs.Lemmas.LowerTopo
+import Proofs.Lemmas.Alias
 import Mathlib.Tactic.Ring
 /-!
 # C09 — lowering / restructuring passes preserve behaviour and meet their postconditions
@@ -471,5 +472,23 @@ def exDco : Block :=
 
 example : Dco.chainOkB (exDco.nets.length + 1) exDco = true ∧
     (Dco.directConnectOutputs exDco).nets = [⟨.and, [0, 1], [4]⟩] := by decide
+
+/-! ### `two_way_fanout`, read backwards
+
+`two_way_fanout` inserts trees of `w` nets (`_make_tree`) and points the readers of a wire at the leaves.  Removing those
+`w` nets again — each leaf replaced by the wire at the root of its tree — is an alias elimination in the sense of
+`Model/Pass/Alias.lean` whose result is the block the pass started from.  So with `b'` the block *after* the pass and `c`
+the certificate "remove the inserted `w` nets" (derived from the real pass output, checked by `Alias.schedsOkB`, and
+`Alias.applyCert b' c` compared net for net with the block *before* the pass on every run): -/
+
+/-- **`two_way_fanout` preserves every Output in every cycle of every run**: the block before the pass
+    (`= Alias.applyCert b' c`) and the block after it (`b'`) agree on every Output and on every wire the pass did not
+    insert, from every initial state whose run is in range. -/
+theorem two_way_fanout_run_eq (b' : Block) (c : Alias.Cert) (h : Alias.schedsOkB b' c = true) (st : State)
+    (inps : List Env) (hrange : Alias.RangeRun b' (Dco.orderOf b') st inps) :
+    Dco.AgreeOn (fun x => b'.kind x = .output)
+      (run (Alias.applyCert b' c) (Dco.orderOf (Alias.applyCert b' c)) st inps) (run b' (Dco.orderOf b') st inps) := by
+  obtain ⟨hs, hout⟩ := Alias.schedsOkB_sound b' c h
+  exact Dco.AgreeOn.mono _ _ hout _ _ (Alias.alias_run b' c _ _ hs inps st hrange)
 
 end Pyrtl.C09
